@@ -79,6 +79,36 @@ Theorem C10_fan_sender_order : forall n progs sched t, let '(s, ts) := frun sche
 Proof. exact fan_sender_order. Qed.
 Print Assumptions C10_fan_sender_order.
 
+(* any mix of uses of a MultiPort over EchoPorts at once - sending on it and on its sub-ports, receiving and iterating on it and on its
+   sub-ports - under every schedule (Model/ConcMix.v; ConcMulti.v and ConcFan.v are its two pure cases) *)
+Require Import Mido.Model.ConcMix Mido.Proofs.ConcMixProofs.
+Theorem C10_mix_no_raise : forall n progs sched t e, xat (snd (xrun sched (xinit n progs)) t) <> XRaised e.
+Proof. exact mix_no_raise. Qed.
+Print Assumptions C10_mix_no_raise.
+Theorem C10_mix_exactly_once : forall n progs sched,
+  let s := fst (xrun sched (xinit n progs)) in forall l, map snd (xapp s l) = popped l (xpops s) ++ xq s l.
+Proof. exact mix_exactly_once. Qed.
+Print Assumptions C10_mix_exactly_once.
+Theorem C10_mix_sweep_conserves : forall n progs sched,
+  let '(s, ts) := xrun sched (xinit n progs) in swept (xpops s) = map snd (xapp s 0) ++ inflight s ts.
+Proof. exact mix_sweep_conserves. Qed.
+Print Assumptions C10_mix_sweep_conserves.
+Theorem C10_mix_mutual_exclusion : forall n progs sched t u l,
+  let '(s, ts) := xrun sched (xinit n progs) in holds (xat (ts t)) l = true -> holds (xat (ts u)) l = true -> t = u.
+Proof. exact mix_mutual_exclusion. Qed.
+Print Assumptions C10_mix_mutual_exclusion.
+(* the hypotheses are met by real runs: three threads, two sub-ports, every kind of use at once *)
+Example C10_mix_nontrivial :
+  let progs := fun t => match t with
+                        | 0%nat => [XSend 0%nat (NoteOn 0 1 2); XRecv 1%nat false]
+                        | 1%nat => [XSend 2%nat (NoteOn 0 3 4); XRecv 0%nat false; XIterP 0%nat []]
+                        | _ => [XIterP 2%nat []; XSend 1%nat (NoteOn 0 5 6)]
+                        end in
+  let '(s, ts) := xrun (flat_map (fun _ => [0; 0; 0; 1; 1; 1; 2; 2; 1]%nat) (seq 0 20)) (xinit 2 progs) in
+  length (xpops s) = 5%nat /\ swept (xpops s) = [NoteOn 0 5 6] /\ xresults (ts 1%nat) = [RSent; RGot None; RList [NoteOn 0 5 6]] /\
+  xresults (ts 2%nat) = [RList [NoteOn 0 3 4; NoteOn 0 1 2]; RSent].
+Proof. vm_compute. repeat split; reflexivity. Qed.
+
 (* the queue the backends feed from their callback threads (ParserQueue, model ConcPQ.v), ANY number of feeding and polling threads, ANY
    programs (chunks of whole messages), ANY schedule: the queue is first-in first-out and loses or invents nothing, and each feeding thread's
    messages enter it in the order that thread fed them; with the lock not held across feed-and-put another thread's message gets in between *)
